@@ -143,7 +143,7 @@ def search(rep, tier, seed, modes=SEARCH_MODES):
     nshrunk = 0
     for mi, mode in enumerate(modes):
         stream = "search-" + mode
-        lines = list(regions.CORPUS) + regions.gen(seed + 31 * (mi + 1), tier, "full", n=n)
+        lines = list(regions.CORPUS) + list(regions.CORPUS_FULL) + regions.gen(seed + 31 * (mi + 1), tier, "full", n=n)
         answers = run_cases(exe, mode, lines, os.path.join(d, stream + ".cases"))
         scratch = os.path.join(d, stream + ".scratch")
         corc = crash_oracle(exe, mode, scratch)
